@@ -1,6 +1,17 @@
 from .wrapper import Wrapper
 
 
+def has_null_point(null_point):
+    """
+    Determine if an agent has been given this null observation or null action.
+
+    Agents store an empty dict when no null point is given, so we look for that
+    instead of the truth value of the point: a null point of 0 is False and a
+    null point that is an array with more than one element has no truth value.
+    """
+    return not (isinstance(null_point, dict) and len(null_point) == 0)
+
+
 class SARWrapper(Wrapper):
     """
     Wraps the actions and observations for all the agents at reset and step.
